@@ -65,11 +65,15 @@ def sub_range(draw, versions: list[int], top: int, must_reach_top: bool = False)
 def int_default(draw, t: str):
     lo, hi = INT_TYPES[t]
     v = draw(st.one_of(st.sampled_from([0, 1, hi, lo, -1 if lo < 0 else 2]), st.integers(lo, hi)))
-    spell = draw(st.integers(0, 3))
+    spell = draw(st.integers(0, 7))
     if spell == 0 and v >= 0:
         return hex(v)
     if spell == 1:
         return v  # JSON number
+    if spell == 4 and v >= 0:
+        return "0x" + format(v, "X")  # upper-case hex digits
+    if spell == 5 and v > 0:
+        return "+" + str(v)  # Java's Integer.decode and Python's int(s, 0) both accept an explicit plus sign
     return str(v)
 
 
